@@ -443,6 +443,23 @@ theorem lost_without_reopen :
     s.err = none ∧ s.dir.get 1 = none ∧ (s.dir.get 0).map (·.data) = some [] := by
   decide
 
+/-! ### the dispatcher level: clear / reopen reach the log file in every mode -/
+
+/-- **reopen/clear act on the normal log whatever the mode**: `POutputDispatcher.reopenlogs()`
+    (SIGUSR2) and `removelogs()` (clearProcessLogs) do to the channel's log file exactly what
+    the operations `reopen` and `clear` of this file do — outside and *inside* a capture section
+    (where `childlog` is the in-memory capture log).  So every theorem above about histories of
+    `write`, `clear`, `reopen` holds for a child's stdout/stderr log in capture mode too.  The
+    loggers walked and the handler methods called are regenerated from dispatchers.py. -/
+theorem dispatcher_ops_reach_log (c : Cfg) (capturemode : Bool) (s : S) :
+    dispReopenlogs c capturemode s = step c s .reopen ∧
+    dispRemovelogs c capturemode s = step c s .clear := by
+  have h1 : reachesNormalLog reopenlogs_targets capturemode = true := by cases capturemode <;> decide
+  have h2 : reachesNormalLog removelogs_targets capturemode = true := by cases capturemode <;> decide
+  refine ⟨?_, ?_⟩
+  · simp [dispReopenlogs, h1, reopenlogs_calls, handlerCalls, step]
+  · simp [dispRemovelogs, h2, removelogs_calls, handlerCalls, step]
+
 /-! ### segments_ordered: every history, all five kinds of operation -/
 
 def noReplace : Op → Bool
